@@ -31,15 +31,11 @@ MODULE = "ColaVerif.Properties.C08"
 DRIVER = "DriverC08.lean"
 CORPUS = os.path.join(common.ROOT, "harness", "corpus", "c08.jsonl")
 
-# Genuine defects of cola found while building this check; recorded here until the decision
-# (repair in /repo or entry in /verif/known_findings.json) is taken.
-PROVISIONAL_KNOWN = {
-    "bdiag-nonsquare-block": "diag(BlockDiag, 0) concatenates the blocks' own diagonals: for a square BlockDiag with non-square blocks "
-                             "(e.g. blocks 1x2 and 2x1) it returns an array of the wrong length / wrong values, and trace() sums it "
-                             "(diag gives [1,3] instead of [1,0,4], trace 4 instead of 5 for blocks [[1,2]], [[3],[4]])",
-    "kron-nonsquare-factor": "diag(Kronecker, 0) takes the outer product of the factors' own diagonals: for a square Kronecker product of "
-                             "non-square factors (e.g. 2x3 (x) 3x2) it returns an array of the wrong length / wrong values",
-}
+# Genuine defects of cola found by this check and not yet decided (repair in /repo or entry in known_findings.json).
+PROVISIONAL_KNOWN = {}
+# (history: `bdiag-nonsquare-block` and `kron-nonsquare-factor` — diag(BlockDiag) / diag(Kronecker) with non-square members
+#  returned wrong values — were found by this check and are repaired in /repo: the rules refuse now; see the corpus and
+#  the regression lemmas C08_regression_block / C08_regression_factor)
 
 KINDS = ["dense", "tri", "sparse", "scalar", "eye", "diag", "tridiag", "perm", "house",
          "prod", "sum", "kron", "kronsum", "bdiag", "T", "H", "slice", "concat", "generic", "ann", "gram", "symslice"]
@@ -791,7 +787,7 @@ def run(ctx):
         "Hutchinson estimation (Auto with numel >= 1e11, alg=Hutch) is outside C08 and outside the model ('unmodelled:hutch')",
         "the block size 100 of exact_diag is a universally quantified parameter bs0 > 0 of the theorems; the real loop is exercised at the true sizes "
         "99..250 against numpy and against the Lean model with bs0 = 100",
-        "diag of a NON-square operand through the probing loop (only reachable inside the two named clauses) is not modelled; there only the property itself is judged",
+        "diag of a NON-square operand through the probing loop is not modelled ('unmodelled:nonsquare-exact'); since the BlockDiag / Kronecker rules refuse non-square members it is unreachable from a square tree",
     ])
     print(json.dumps({"outcomes": cov["outcomes"], "distinct_nontrivial": cov["distinct_nontrivial"],
                       "gate": (gate or {}).get("obligations")}))
